@@ -313,7 +313,26 @@ func runC19(fl *evid.Flags) int {
 				p.Inconclusive = nil
 				run.Merge(p)
 			} else if j.bin == os.Args[0] {
-				run.Inconclusive("child " + j.name + " left no partial result")
+				tail := ""
+				if b, err := os.ReadFile(filepath.Join(dir, "stderr")); err == nil {
+					// the first panic / fatal line and the end of the child's stderr tell why it died
+					txt := string(b)
+					for _, mark := range []string{"\npanic: ", "\nfatal error: "} {
+						if i := strings.Index(txt, mark); i >= 0 {
+							end := i + 1500
+							if end > len(txt) {
+								end = len(txt)
+							}
+							tail += " | " + strings.ReplaceAll(txt[i+1:end], "\n", " / ")
+							break
+						}
+					}
+					if len(txt) > 600 {
+						txt = txt[len(txt)-600:]
+					}
+					tail += " | stderr ends: " + strings.ReplaceAll(txt, "\n", " / ")
+				}
+				run.Inconclusive("child " + j.name + " left no partial result" + tail)
 			} else {
 				run.Count("external_engine_runs", 1)
 			}
